@@ -153,8 +153,12 @@ def index_exprs(shape):
         out += [(0, 1), (-1, slice(0, 2)), (slice(None), 1), (Ellipsis, 0), (slice(0, 1), slice(1, 3)), (1, Ellipsis), (slice(None), -1)]
     if r >= 3:
         out += [(0, 0, 1), (Ellipsis, 1), (1, slice(None), 0)]
-    good = []
+    # list / ndarray / boolean (fancy) indices select along the first trailing axis
     import numpy as np
+    out += [[0, -1], [0], np.array([0, shape[0] - 1]), [True] + [False] * (shape[0] - 1)]
+    if r >= 2:
+        out += [([0, 1], 1), (slice(None), [0, -1])]
+    good = []
     probe = np.zeros(shape)
     for ix in out:
         try:
